@@ -18,6 +18,13 @@ static void gen_echelon(const GenCtx &ctx, Case &c, int viewpct) {
     n = std::min(n, 300);
   }
   if ((r == "mzd_echelonize_pluq" || r == "mzd_echelonize" || r == "_mzd_echelonize_m4ri") && g::coin(1, 6)) g::ple_recursive_shape(ctx, m, n);
+  // few rows, very many columns: the automatic table parameter is reduced by a cache rule (0.75 * 2^k * ncols > L3 / 2)
+  // that only fires for such shapes; reachable cheaply when the configured L3 is small
+  if (vf_cfg_l3() <= 300000 && g::coin(1, 40) && r != "mzd_echelonize_naive" && r != "mzd_gauss_delayed") {
+    m = g::rng(1, 8);
+    n = (int)(vf_cfg_l3() / 3) + g::rng(-2000, 6000);
+    if (g::coin(1, 2)) k = 0;
+  }
   c.set("m", m).set("n", n).set("full", g::rng(0, 1));
   if (r == "mzd_echelonize_m4ri" || r == "_mzd_echelonize_m4ri") c.set("k", k);
   if (r == "_mzd_echelonize_m4ri") {
